@@ -13,6 +13,7 @@ import (
 	"fmt"
 	"os"
 	"path/filepath"
+	"strings"
 	"sync"
 	"sync/atomic"
 	"syscall"
@@ -197,6 +198,35 @@ func runA(dir string, sc Scenario, rec *Rec) {
 		rec.Reached = waitFor(time.Second, func() bool { return len(ch) == sc.Cap }) && len(done) == 0
 		time.Sleep(30 * time.Millisecond)
 		rec.Reached = rec.Reached && len(ch) == sc.Cap && len(done) == 0
+	case "sendingthrough":
+		// the consumer is away until the channel is full and a send is blocked, then it takes everything: back-pressure
+		// delays lines, it never loses one (C15/C07); afterwards the worker is cancelled while waiting for input
+		n := sc.Cap + 40
+		for i := 0; i < n; i++ {
+			w.WriteString(auditLine(i))
+		}
+		rec.Reached = waitFor(time.Second, func() bool { return len(ch) == sc.Cap }) && len(done) == 0
+		time.Sleep(30 * time.Millisecond)
+		got, inorder := 0, true
+		deadline := time.After(2 * time.Second)
+	through:
+		for got < n {
+			select {
+			case l := <-ch:
+				if strings.TrimRight(l, "\n") != strings.TrimRight(auditLine(got), "\n") {
+					inorder = false
+				}
+				got++
+				consumed.Add(1)
+			case <-deadline:
+				break through
+			}
+		}
+		rec.Login = "lines:ok"
+		if got != n || !inorder {
+			rec.Login = "lines:lost"
+			rec.Note = fmt.Sprintf("%d of %d lines arrived once the consumer was back (in order: %v)", got, n, inorder)
+		}
 	case "flood":
 		stop := make(chan struct{})
 		defer close(stop)
@@ -428,6 +458,51 @@ func runP(sc Scenario, rec *Rec) {
 		if enc.n.Load() > 0 {
 			rec.Login = "leak"
 		}
+		return
+	case "backlog":
+		// cancelled with a long backlog in the line channel (a write in progress: the parser is busy). Read and its
+		// parser stop taking input: the parser's choice between "cancelled" and "another line" is a fair one, so a
+		// handful of lines may still go through (k more with probability 2^-k) - not the whole queue
+		evt := auditevent.NewAuditEvent("UserLogin", auditevent.EventSource{Type: "IP", Value: "10.0.0.1"}, "succeeded",
+			map[string]string{"loggedAs": "u", "userID": "x", "pid": "25007"}, "sshd")
+		select {
+		case logins <- common.RemoteUserLogin{Source: evt, PID: 25007, CredUserID: "x"}:
+		case <-time.After(time.Second):
+		}
+		audits <- "type=LOGIN msg=audit(1668460768.100:29999): pid=25007 uid=0 old-auid=4294967295 auid=1000 tty=(none) old-ses=4294967295 ses=499 res=1"
+		rec.Reached = waitFor(time.Second, func() bool { return enc.n.Load() == 1 })
+		enc.armed.Store(true)
+		n := sc.Cap / 2
+		for i := 0; i < n; i++ {
+			select {
+			case audits <- auditLine(i)[:len(auditLine(i))-1]:
+			case <-time.After(time.Second):
+				rec.Reached = false
+			}
+		}
+		time.Sleep(40 * time.Millisecond)
+		rec.Reached = rec.Reached && len(done) == 0 && len(audits) >= n-3
+		before := time.Now()
+		cancel()
+		select {
+		case err := <-done:
+			enc.returned.Store(true)
+			rec.Returned = true
+			rec.Ms = int(time.Since(before).Milliseconds())
+			rec.ErrCtx = err != nil
+			if err != nil {
+				rec.Err = err.Error()
+			}
+		case <-time.After(bound):
+			rec.Ms = int(bound.Milliseconds())
+		}
+		time.Sleep(1200 * time.Millisecond)
+		late := enc.after.Load()
+		rec.Login = "backlog:left"
+		if late > 30 {
+			rec.Login = "backlog:drained"
+		}
+		rec.Note = fmt.Sprintf("%d of %d queued lines were still processed after the cancellation (%d left in the channel)", late, n, len(audits))
 		return
 	case "inflightfail":
 		// two events still being assembled and an output that has started to fail: the flush on the way out reports
